@@ -330,8 +330,12 @@ class SymDiGraph:
     def is_directed(self):
         return True
 
-    def copy(self):
-        raise NotImplementedError("SymDiGraph.copy")
+    def copy(self, as_view=False):
+        """copy = same symbolic base, private copy of the write log"""
+        g = SymDiGraph(self.o, self.U, (self.P, self.T, self.O, self.E))
+        g.wnode, g.fresh, g.wattr, g.wedge = dict(self.wnode), set(self.fresh), dict(self.wattr), dict(self.wedge)
+        g.created = list(self.created)
+        return g
 
 
 def make_vars(U, self_loops=True):
